@@ -728,7 +728,7 @@ func (l *liveRun) nativeSlashed(j Job, i int) *ops.World {
 	executed := 0
 	for k := 0; k < nSlash && !w.Dead; k++ {
 		power := int64(1)
-		if vals, err := w.C.App.OperatorKeeper.GetOperatorOptedUSDValue(w.C.Ctx(), w.AVSAddr, victim.Addr()); err == nil {
+		if vals, err := w.C.App.OperatorKeeper.GetOperatorOptedUSDValue(w.C.Ctx(), w.AVSAddr, victim.Addr()); err == nil && !vals.ActiveUSDValue.IsNil() {
 			if t := vals.ActiveUSDValue.TruncateInt(); t.IsInt64() && t.Int64() > 0 {
 				power = t.Int64()
 			}
